@@ -229,6 +229,297 @@ def extract_html_escapes(defs, consts):
 
 
 # ---------------------------------------------------------------------------------------------
+# Interning (C08): id widths, built-in registrations of `Xot::new`, clone derivations
+
+ID_TYPES = (("nameIdBits", "src/id/name.rs", "NameId"),
+            ("namespaceIdBits", "src/id/namespace.rs", "NamespaceId"),
+            ("prefixIdBits", "src/id/prefix.rs", "PrefixId"))
+INT_BITS = {"u8": 8, "u16": 16, "u32": 32, "u64": 64, "u128": 128, "usize": 64}
+LOOKUP_TABLES = {"NamespaceLookup": "namespace", "PrefixLookup": "prefix", "NameLookup": "name"}
+# field of `struct Xot` -> (public accessor in nameaccess.rs, table)
+BUILTIN_FIELDS = (("no_namespace_id", "no_namespace", "namespace"),
+                  ("empty_prefix_id", "empty_prefix", "prefix"),
+                  ("xml_namespace_id", "xml_namespace", "namespace"),
+                  ("xml_prefix_id", "xml_prefix", "prefix"),
+                  ("xml_space_id", "xml_space_name", "name"),
+                  ("xml_id_id", "xml_id_name", "name"))
+STRLIT = r'"((?:\\.|[^"\\])*)"'
+
+
+def impl_block(src, ty, containing_fn, what):
+    """Text of the inherent `impl <ty> { … }` block that defines `fn <containing_fn>`."""
+    for m in re.finditer(r"\bimpl\s+" + re.escape(ty) + r"\s*\{", src):
+        depth = 0
+        j = m.end() - 1
+        n = len(src)
+        while j < n:
+            c = src[j]
+            if c == '"':
+                k = j + 1
+                while k < n and src[k] != '"':
+                    k += 2 if src[k] == "\\" else 1
+                j = k + 1
+                continue
+            if c == "'":
+                m2 = re.match(r"'(\\u\{[0-9a-fA-F]+\}|\\.|[^\\'])'", src[j:])
+                if m2:
+                    j += len(m2.group(0))
+                    continue
+            if c == "{":
+                depth += 1
+            elif c == "}":
+                depth -= 1
+                if depth == 0:
+                    break
+            j += 1
+        block = src[m.end():j]
+        if re.search(r"\bfn\s+" + re.escape(containing_fn) + r"\b", block):
+            return block
+    raise ExtractError(f"{what}: no `impl {ty} {{ … }}` block defining `fn {containing_fn}` found")
+
+
+def derives_of(src, ty, what):
+    """Traits in the `#[derive(…)]` attributes directly above `struct <ty>`."""
+    m = re.search(r"((?:#\[[^\]]*\]\s*)*)(?:pub(?:\s*\([^)]*\))?\s+)?struct\s+" + re.escape(ty) + r"\b", src)
+    if not m:
+        raise ExtractError(f"{what}: `struct {ty}` not found")
+    out = []
+    for d in re.findall(r"#\[\s*derive\s*\(([^)]*)\)\s*\]", m.group(1)):
+        out.extend(t.strip() for t in d.split(",") if t.strip())
+    return out
+
+
+def extract_ids(defs, consts):
+    # --- widths -------------------------------------------------------------------------------
+    for lean_name, rel, ty in ID_TYPES:
+        src = strip_comments(read(rel))
+        m = re.search(r"\bstruct\s+" + ty + r"\s*\(\s*(?:pub(?:\s*\([^)]*\))?\s+)?(\w+)\s*\)\s*;", src)
+        if not m:
+            raise ExtractError(f"{lean_name}: `struct {ty}(<integer type>);` not found in {rel}")
+        field_ty = m.group(1)
+        if field_ty not in INT_BITS:
+            raise ExtractError(f"{lean_name}: field type `{field_ty}` of `struct {ty}` in {rel} is not an unsigned integer type")
+        mi = re.search(r"\bimpl\s+IdIndex\s*<\s*" + ty + r"\s*>\s*for\s+" + ty + r"\s*\{", src)
+        if not mi:
+            raise ExtractError(f"{lean_name}: `impl IdIndex<{ty}> for {ty}` not found in {rel}")
+        to_id = re.sub(r"\s+", " ", fn_body(src[mi.start():], "to_id", lean_name)).strip()
+        mc = re.fullmatch(ty + r" ?\( ?index as (\w+) ?\)", to_id)
+        if not mc:
+            raise ExtractError(f"{lean_name}: body of `{ty}::to_id` in {rel} is `{to_id}`, expected `{ty}(index as uN)` (an unchecked cast; anything else needs a new model of `toId`)")
+        if mc.group(1) != field_ty:
+            raise ExtractError(f"{lean_name}: `struct {ty}({field_ty})` but `to_id` casts `index as {mc.group(1)}` in {rel}: the two widths disagree")
+        from_id = re.sub(r"\s+", " ", fn_body(src[mi.start():], "from_id", lean_name)).strip()
+        if not re.fullmatch(r"id ?\. ?0 as usize", from_id):
+            raise ExtractError(f"{lean_name}: body of `{ty}::from_id` in {rel} is `{from_id}`, expected `id.0 as usize`")
+        if "Clone" not in derives_of(src, ty, lean_name) or "Copy" not in derives_of(src, ty, lean_name):
+            raise ExtractError(f"{lean_name}: `struct {ty}` in {rel} no longer derives Clone and Copy")
+        defs.append(f"/-- `struct {ty}({field_ty})`, `to_id`: `index as {mc.group(1)}` ({rel}). -/\ndef {lean_name} : Nat := {INT_BITS[field_ty]}\n")
+        consts[lean_name] = INT_BITS[field_ty]
+    # --- clone is derived (C08_clone / C12 rest on field-wise clones of Vec and HashMap) ------------
+    idmap = strip_comments(read("src/id/idmap.rs"))
+    if "Clone" not in derives_of(idmap, "IdMap", "idMapClone"):
+        raise ExtractError("idMapClone: `struct IdMap` in src/id/idmap.rs does not `#[derive(Clone)]` (a hand-written Clone needs a model)")
+    mf = re.search(r"\bstruct\s+IdMap\b[^{;]*\{([^}]*)\}", idmap)
+    fields = re.sub(r"\s+", "", mf.group(1)).rstrip(",") if mf else None
+    if fields != "by_id:Vec<V>,by_value:HashMap<V,K>":
+        raise ExtractError(f"idMapFields: fields of `struct IdMap` in src/id/idmap.rs are `{fields}`, expected `by_id:Vec<V>,by_value:HashMap<V,K>`")
+    if "Clone" not in derives_of(strip_comments(read("src/id/name.rs")), "Name", "nameClone"):
+        raise ExtractError("nameClone: `struct Name` in src/id/name.rs does not derive Clone")
+    xotdata = strip_comments(read("src/xotdata.rs"))
+    if "Clone" not in derives_of(xotdata, "Xot", "xotClone"):
+        raise ExtractError("xotClone: `struct Xot` in src/xotdata.rs does not `#[derive(Clone)]`")
+    defs.append("/-- `IdMap`, `Name` and `Xot` all `#[derive(Clone)]`: a clone is the field-wise clone. -/\ndef interningCloneIsDerived : Bool := true\n")
+    consts["interningCloneIsDerived"] = True
+    # --- built-in registrations of Xot::new -------------------------------------------------------
+    what = "builtinRegistrations"
+    body = fn_body(impl_block(xotdata, "Xot", "new", what), "new", what)
+    tables = {}
+    for m in re.finditer(r"\blet\s+mut\s+(\w+)\s*=\s*(\w+)\s*::\s*new\s*\(\s*\)\s*;", body):
+        if m.group(2) in LOOKUP_TABLES:
+            tables[m.group(1)] = LOOKUP_TABLES[m.group(2)]
+    if sorted(tables.values()) != ["name", "namespace", "prefix"]:
+        raise ExtractError(f"{what}: expected one `let mut x = NamespaceLookup::new()`, `PrefixLookup::new()` and `NameLookup::new()` each in `Xot::new`, found {tables}")
+    regs = []
+    n_calls = len(re.findall(r"\.\s*get_id_mut\s*\(", body))
+    call = re.compile(r"\blet\s+(\w+)\s*=\s*(\w+)\s*\.\s*get_id_mut\s*\(\s*(?:" + STRLIT +
+                      r"|&\s*Name\s*::\s*new\s*\(\s*" + STRLIT + r"\s*,\s*(\w+)\s*\))\s*\)\s*;")
+    for m in call.finditer(body):
+        var, tvar, lit, nlit, nsvar = m.groups()
+        if tvar not in tables:
+            raise ExtractError(f"{what}: `{tvar}.get_id_mut(…)` in `Xot::new`: `{tvar}` is not one of the lookup tables {sorted(tables)}")
+        t = tables[tvar]
+        if (t == "name") != (nlit is not None):
+            raise ExtractError(f"{what}: `let {var} = {tvar}.get_id_mut(…)`: argument shape does not fit the {t} table")
+        if nsvar is not None and nsvar not in [r[1] for r in regs if r[0] == "namespace"]:
+            raise ExtractError(f"{what}: `Name::new(\"{nlit}\", {nsvar})`: `{nsvar}` is not the result of an earlier namespace registration")
+        regs.append((t, var, unescape(lit if lit is not None else nlit), nsvar))
+    if len(regs) != n_calls:
+        raise ExtractError(f"{what}: `Xot::new` contains {n_calls} get_id_mut calls but only {len(regs)} have the shape `let v = table.get_id_mut(\"…\" | &Name::new(\"…\", ns_var));`")
+    ml = re.search(r"\bXot\s*\{(.*)\}\s*$", body, flags=re.S)
+    if not ml:
+        raise ExtractError(f"{what}: `Xot::new` does not end in a `Xot {{ … }}` literal")
+    lit_fields = [re.sub(r"\s+", " ", f).strip() for f in ml.group(1).split(",") if f.strip()]
+    nameaccess = strip_comments(read("src/nameaccess.rs"))
+    for field, accessor, t in BUILTIN_FIELDS:
+        mine = [r for r in regs if r[1] == field]
+        if len(mine) != 1 or mine[0][0] != t:
+            raise ExtractError(f"{what}: expected exactly one `let {field} = <{t} table>.get_id_mut(…)` in `Xot::new`")
+        if field not in lit_fields:
+            raise ExtractError(f"{what}: field `{field}` is not initialised by shorthand from the variable `{field}` in the `Xot {{ … }}` literal of `Xot::new`")
+        acc = re.sub(r"\s+", "", fn_body(nameaccess, accessor, what))
+        if acc != f"self.{field}":
+            raise ExtractError(f"{what}: accessor `{accessor}` in src/nameaccess.rs returns `{acc}`, expected `self.{field}`")
+    for tvar, t in tables.items():
+        want = {"namespace": "namespace_lookup", "prefix": "prefix_lookup", "name": "name_lookup"}[t]
+        if tvar != want or want not in lit_fields:
+            raise ExtractError(f"{what}: the {t} table of `Xot::new` is `{tvar}`; expected variable and shorthand field `{want}`")
+    extra = [r[1] for r in regs if r[1] not in [f for f, _a, _t in BUILTIN_FIELDS]]
+    if extra:
+        raise ExtractError(f"{what}: `Xot::new` registers values bound to {extra}, which have no known accessor (extend BUILTIN_FIELDS and the model)")
+    defs.append("inductive RegTable where\n  | namespace | prefix | name\n  deriving DecidableEq, Repr\n")
+    defs.append("/-- One `let field = table.get_id_mut(value)` of `Xot::new`; for the name table the value is\n    `Name::new(value, nsField)`. -/\n"
+                "structure BuiltinReg where\n  table : RegTable\n  field : List Char\n  value : List Char\n  nsField : Option (List Char)\n  deriving DecidableEq, Repr\n")
+    rows = []
+    for t, var, val, nsvar in regs:
+        ns = "none" if nsvar is None else f"some {lean_str(nsvar)}"
+        rows.append(f"  ⟨.{t}, {lean_str(var)}, {lean_str(val)}, {ns}⟩")
+    defs.append("/-- The `get_id_mut` calls of `Xot::new` (src/xotdata.rs), in source order. -/\n"
+                "def builtinRegistrations : List BuiltinReg := [\n" + ",\n".join(rows) + "]\n")
+    consts["builtinRegistrations"] = [[t, var, val, nsvar] for t, var, val, nsvar in regs]
+    xml_ns = [r[2] for r in regs if r[1] == "xml_namespace_id"][0]
+    defs.append(f"/-- The literal registered as `xml_namespace_id`. -/\ndef xmlNs : List Char := {lean_str(xml_ns)}\n")
+    consts["xmlNs"] = xml_ns
+
+
+
+
+def lean_strs(xs):
+    return "[" + ", ".join(lean_str(x) for x in xs) + "]"
+
+
+def extract_xml_render(defs, consts):
+    """String literals of XmlSerializer::render_output / serialize_pretty (output/xml_serializer.rs)
+    and of the declaration / doctype writers (output/xml.rs).  A `format!` literal becomes the
+    list of its pieces between `{}` placeholders (model: `fmt pieces args`)."""
+    src = strip_comments(read("src/output/xml_serializer.rs"))
+    body = fn_body(src, "render_output", "xml render literals")
+    lits = []
+    for m in re.finditer(r'format!\(\s*"((?:\\.|[^"\\])*)"|"((?:\\.|[^"\\])*)"\s*\.to_string\(\)', body):
+        if m.group(1) is not None:
+            lits.append(("fmt", unescape(m.group(1))))
+        else:
+            lits.append(("lit", unescape(m.group(2))))
+    names = [("fmtStartTagOpen", "fmt", 1), ("litEmptyTagClose", "lit", 0), ("litTagClose", "lit", 0),
+             ("fmtEndTag", "fmt", 1), ("litEmptyEndTag", "lit", 0), ("litXmlPrefix", "lit", 0),
+             ("fmtXmlnsDefault", "fmt", 1), ("fmtXmlnsPrefix", "fmt", 2), ("fmtAttribute", "fmt", 2),
+             ("fmtComment", "fmt", 1), ("fmtPiData", "fmt", 2), ("fmtPi", "fmt", 1)]
+    if len(lits) != len(names):
+        raise ExtractError(f"xml render literals: expected {len(names)} format!/to_string literals in render_output, found {len(lits)}: {lits}")
+    for (name, kind, holes), (k, text) in zip(names, lits):
+        if k != kind or (kind == "fmt" and text.count("{}") != holes) or ("{" in text.replace("{}", "")):
+            raise ExtractError(f"xml render literals: {name}: unexpected literal {text!r}")
+        if kind == "fmt":
+            defs.append(f"def {name} : List (List Char) := {lean_strs(text.split('{}'))}\n")
+        else:
+            defs.append(f"def {name} : List Char := {lean_str(text)}\n")
+        consts[name] = text
+    body = fn_body(src, "serialize_pretty", "indentation width")
+    m = re.search(r'"((?:\\.|[^"\\])*)"\s*\.repeat\(\s*indentation\s*\*\s*(\d+)\s*\)', body)
+    nl = re.findall(r'write_all\(\s*b"((?:\\.|[^"\\])*)"\s*\)', body)
+    if not m or len(nl) != 1:
+        raise ExtractError("serialize_pretty: expected `\" \".repeat(indentation * N)` and one `write_all(b\"…\")`")
+    defs.append(f"def indentUnit : List Char := {lean_str(unescape(m.group(1)))}\n")
+    defs.append(f"def indentWidth : Nat := {int(m.group(2))}\n")
+    defs.append(f"def prettyNewline : List Char := {lean_str(unescape(nl[0]))}\n")
+    consts["indent"] = [unescape(m.group(1)), int(m.group(2)), unescape(nl[0])]
+    body = fn_body(src, "serialize_node", "token space")
+    sp = re.findall(r'write_all\(\s*b"((?:\\.|[^"\\])*)"\s*\)', body)
+    if len(sp) != 1:
+        raise ExtractError("serialize_node: expected one `write_all(b\"…\")` literal (the token space)")
+    defs.append(f"def tokenSpace : List Char := {lean_str(unescape(sp[0]))}\n")
+    consts["tokenSpace"] = unescape(sp[0])
+    # output/pretty.rs element_space: the xml:space keywords
+    psrc = strip_comments(read("src/output/pretty.rs"))
+    body = fn_body(psrc, "element_space", "spaceKeywords")
+    kw = dict((v, unescape(k)) for k, v in re.findall(r'Some\(\s*"((?:\\.|[^"\\])*)"\s*\)\s*=>\s*Space::(\w+)', body))
+    if set(kw) != {"Preserve", "Default"} or "xml_space_name" not in body:
+        raise ExtractError(f"element_space: expected arms Some(\"…\") => Space::Preserve / Space::Default on xml_space_name, found {kw}")
+    defs.append(f"def spacePreserve : List Char := {lean_str(kw['Preserve'])}\n")
+    defs.append(f"def spaceDefault : List Char := {lean_str(kw['Default'])}\n")
+    consts["spaceKeywords"] = [kw["Preserve"], kw["Default"]]
+    # output/xml.rs: the two `serialize` writers, told apart by their first literal
+    xsrc = strip_comments(read("src/output/xml.rs"))
+    bodies = []
+    for m in re.finditer(r"\bfn\s+serialize\b", xsrc):
+        bodies.append(fn_body(xsrc[m.start():], "serialize", "xml.rs writers"))
+    if len(bodies) != 2:
+        raise ExtractError(f"output/xml.rs: expected 2 `fn serialize` (Declaration, DocType), found {len(bodies)}")
+    wl = [[unescape(x) for x in re.findall(r'b"((?:\\.|[^"\\])*)"', b)] for b in bodies]
+    dnames = ["declOpen", "declEncodingOpen", "declEncodingClose", "declStandaloneOpen", "declYes", "declNo",
+              "declStandaloneClose", "declClose"]
+    tnames = ["doctypeOpen", "doctypePublicOpen", "doctypePublicSep", "doctypePublicClose", "doctypeSystemOpen",
+              "doctypeSystemClose", "doctypeClose"]
+    if len(wl[0]) != len(dnames) or not wl[0][0].startswith("<?xml"):
+        raise ExtractError(f"Declaration::serialize: unexpected literals {wl[0]}")
+    if len(wl[1]) != len(tnames) or not wl[1][0].startswith("<!DOCTYPE"):
+        raise ExtractError(f"DocType::serialize: unexpected literals {wl[1]}")
+    for n, v in list(zip(dnames, wl[0])) + list(zip(tnames, wl[1])):
+        defs.append(f"def {n} : List Char := {lean_str(v)}\n")
+    consts["xmlDeclaration"] = wl[0]
+    consts["doctype"] = wl[1]
+
+
+def extract_unpretty(defs, consts):
+    """C18: which characters `is_whitespace` accepts and the xml:space keyword of
+    `in_preserve_space` (src/unpretty.rs)."""
+    src = strip_comments(read("src/unpretty.rs"))
+    body = fn_body(src, "is_whitespace", "whitespaceChars")
+    m = re.search(r"\.chars\(\)\s*\.all\(\s*\|\s*(\w+)\s*\|(.*)\)\s*$", body, flags=re.S)
+    if not m:
+        raise ExtractError("whitespaceChars: `is_whitespace` is not of the form `text.chars().all(|c| …)`")
+    var, pred = m.group(1), m.group(2).strip()
+    mm = re.fullmatch(r"matches!\(\s*" + re.escape(var) + r"\s*,(.*)\)", pred, flags=re.S)
+    if mm:
+        alts = mm.group(1)
+        chars = [unescape(c) for c in re.findall(CHAR, alts)]
+        rest = re.sub(CHAR, "", alts)
+        if not chars or re.sub(r"[\s|]", "", rest) != "" or rest.count("|") != len(chars) - 1:
+            raise ExtractError(f"whitespaceChars: the matches! pattern `{alts.strip()}` is not an alternation of char literals")
+        if any(len(c) != 1 for c in chars):
+            raise ExtractError("whitespaceChars: a literal of the matches! pattern is not a single character")
+        unicode_ws = False
+    elif re.fullmatch(re.escape(var) + r"\s*\.\s*is_whitespace\(\s*\)", pred):
+        chars = []
+        unicode_ws = True
+    else:
+        raise ExtractError(f"whitespaceChars: predicate `{pred}` is neither a matches! of char literals nor `c.is_whitespace()`")
+    defs.append("/-- `unpretty::is_whitespace` uses `char::is_whitespace` (all of Unicode White_Space). -/\n"
+                f"def whitespaceUnicode : Bool := {'true' if unicode_ws else 'false'}\n")
+    defs.append(f"def whitespaceChars : List Char := {lean_str(''.join(chars))}\n")
+    consts["whitespaceUnicode"] = unicode_ws
+    consts["whitespaceChars"] = chars
+    # the significance test must be the negation of the same predicate
+    sig = re.sub(r"\s+", "", fn_body(src, "is_significant_text_node", "is_significant_text_node"))
+    if "!is_whitespace(text)" not in sig:
+        raise ExtractError("is_significant_text_node: expected `!is_whitespace(text)`")
+    body = fn_body(src, "in_preserve_space", "preserveKeyword")
+    lits = re.findall(r'==\s*"((?:\\.|[^"\\])*)"', body)
+    if len(lits) != 1:
+        raise ExtractError(f"preserveKeyword: expected exactly one `== \"…\"` comparison in in_preserve_space, found {len(lits)}")
+    if "xml_space_name()" not in body or not re.search(r"for\s+\w+\s+in\s+xot\.ancestors\(", body):
+        raise ExtractError("in_preserve_space: expected a walk over `xot.ancestors(node)` looking up `xml_space_name()`")
+    kw = unescape(lits[0])
+    defs.append(f"def preserveKeyword : List Char := {lean_str(kw)}\n")
+    consts["preserveKeyword"] = kw
+    # collection first, removal second
+    top = re.sub(r"\s+", "", fn_body(src, "remove_insignificant_whitespace", "remove_insignificant_whitespace"))
+    if not (top.index("xot.descendants(node)") < top.index("to_remove.push(") < top.index("xot.remove(node)")):
+        raise ExtractError("remove_insignificant_whitespace: expected collect-then-remove over xot.descendants(node)")
+
+
+
+
+# ---------------------------------------------------------------------------------------------
 # C12: `struct Xot` — field list, types, and the ownership argument for `#[derive(Clone)]`
 
 OWNED_EXTERNAL = {
@@ -405,7 +696,8 @@ def extract_xot_fields(defs_out, consts):
     consts["xotFields"] = [[n, t] for n, t, _o in rows]
 
 
-EXTRACTORS = [extract_entity, extract_html_escapes, extract_xot_fields]
+# every function named extract_* is an extractor, in definition order
+EXTRACTORS = [v for k, v in list(globals().items()) if k.startswith("extract_") and callable(v)]
 
 
 def main():
